@@ -594,7 +594,6 @@ Definition bad_class (h : hclass) (s : str) : option string :=
   | HFn => if is_ts_identifier s then Some "C01-reserved-fn"%string
            else None
   | HType | HZ => if has_sub "::" s then Some "C01-path-leak"%string
-                  else if has_sub "types.[" s then Some "C01-prefix-tuple"%string
                   else None
   | HStr q => None
   | HTyName => None
